@@ -12,7 +12,10 @@ package redisemu
 //   G5  abstract state changed  =>  the store is marked dirty          (C19)
 //   G8  no panic                                                       (C13)
 
-import "time"
+import (
+	"math/big"
+	"time"
+)
 
 type vKeySnap struct {
 	exists bool
@@ -403,4 +406,79 @@ func VerifH_c13_dump_restore() {
 	vAssert("restored-copy-equals-original", vSnapEq(vSnapKey(cs, "k"), vSnapKey(cs, "k2")))
 	oneType, nonEmpty, placed := vKeyspaceOK(cs)
 	vAssert("dump-restore-keyspace-ok", oneType && nonEmpty && placed)
+}
+
+// VerifH_c13_resp3_args: commands whose arguments are not bulk strings but
+// other RESP2/RESP3 values (integers, nulls, booleans, doubles, big numbers,
+// simple/verbatim strings, errors, nested arrays, maps, sets) in any one or
+// two positions, including the command name: the dispatcher answers (an
+// error or a result) and never panics, and the connection keeps working.
+func VerifH_c13_resp3_args() {
+	VerifSetup()
+	cs := vNewClient()
+	vCmd(cs, "RPUSH", "l", "a", "b")
+	vCmd(cs, "HSET", "h", "f", "1")
+	templates := [][]string{
+		{"SET", "k", "v", "EX", "100"}, {"GET", "k"}, {"LPUSH", "l", "x", "y"}, {"LRANGE", "l", "0", "-1"}, {"HSET", "h", "f", "v"},
+		{"HINCRBY", "h", "f", "2"}, {"EXPIRE", "k", "100", "NX"}, {"SETRANGE", "k", "1", "zz"}, {"BITFIELD", "k", "GET", "u8", "0"},
+		{"CLIENT", "SETNAME", "n"}, {"SADD", "s", "m"}, {"SINTERCARD", "1", "s", "LIMIT", "1"}, {"LMPOP", "1", "l", "LEFT", "COUNT", "1"},
+		{"MSET", "a", "1", "b", "2"}, {"DEL", "k", "l"}, {"SORT", "l", "ALPHA", "LIMIT", "0", "1"}, {"SCAN", "0", "COUNT", "5"},
+		{"HELLO", "3"}, {"SELECT", "1"}, {"COPY", "k", "k2", "DB", "1"}, {"RESTORE", "k9", "0", "xx"}, {"PING", "hi"}, {"ECHO", "hi"},
+		{"COMMAND", "GETKEYS", "SET", "a", "b"}, {"OBJECT", "ENCODING", "k"}, {"WATCH", "k"}, {"LPOS", "l", "a", "RANK", "1"},
+	}
+	t := templates[vChoice("tpl", len(templates))]
+	args := make(respArray, len(t))
+	for i, s := range t {
+		args[i] = respValue{data: respBulkString(s)}
+	}
+	mk := func(name string) respValue {
+		switch vChoice(name, 12) {
+		case 0:
+			// (a symbolic number would become a symbolic key name, whose hash
+			// is out of the solver's reach: boundary values instead)
+			return respValue{data: respInt([]int64{0, 1, -1, 9223372036854775807, -9223372036854775808}[vChoice(name+".i", 5)])}
+		case 1:
+			return respValue{data: nil}
+		case 2:
+			return respValue{data: respNull{}}
+		case 3:
+			return respValue{data: respBool(vBool(name + ".b"))}
+		case 4:
+			return respValue{data: respDouble(1.5)}
+		case 5:
+			return respValue{data: respBigNumber{bn: big.NewInt(7)}}
+		case 6:
+			return respValue{data: respSimpleString("1")}
+		case 7:
+			return respValue{data: respVerbatimString{format: "txt", text: "1"}}
+		case 8:
+			return respValue{data: respBlobError("ERR x")}
+		case 9:
+			return respValue{data: respArray{respValue{data: respBulkString("1")}}}
+		case 10:
+			m := newRespMap()
+			m.set(respValue{data: respBulkString("a")}, respValue{data: respInt(1)})
+			return respValue{data: m}
+		}
+		s := respSet{}
+		s[respValue{data: respBulkString("1")}] = struct{}{}
+		return respValue{data: s}
+	}
+	p1 := vChoice("pos", 6)
+	vAssume(p1 < len(t))
+	args[p1] = mk("a")
+	if vTier() > 0 && vBool("two") {
+		p2 := vChoice("pos2", 6)
+		vAssume(p2 < len(t) && p2 != p1)
+		args[p2] = mk("b")
+	}
+	panicked, msg := vCatch(func() { cs.dispatch(respValue{data: args}) })
+	vAssert("non-bulk-arguments-no-panic", !panicked)
+	if panicked {
+		vNote(msg)
+		return
+	}
+	if cs.cmdQueue == nil {
+		vAssert("connection-still-served", !vIsErr(vCmd(cs, "SET", "after", "1")))
+	}
 }
